@@ -40,9 +40,10 @@ async def main():
     for name, n, payload in families():
         a = Peer(srv)
         await a.login()
-        t0 = time.perf_counter()
+        # CPU time of this process, not wall-clock: a loaded machine must not look like a slow handler
+        t0 = time.process_time()
         out = await a.cmd(payload, n=10)
-        dt = time.perf_counter() - t0
+        dt = time.process_time() - t0
         print(json.dumps(dict(family=name, n=n, payload=payload.hex(), seconds=round(dt, 4), replied=bool(out))), flush=True)
         await a.finish()
         if dt > 1.5:
